@@ -195,6 +195,62 @@ def builder_scope_rule(rep, prog, cfg):
                   "are dropped when the rest arrives with the next read" % name)
 
 
+def count_scope_rule(rep, prog, cfg, rule="C02.persist", which=("blocking/connect", "blocking/receive", "async/connect", "async/receive")):
+    """What has been received must survive between two reads of one call: a running byte count kept in a local (handed to the
+    read helper by `&mut`, or used as the start of the slice that is read into) and a locally built receive buffer are set up
+    before the read loop — (re)initialising them inside the loop makes every read overwrite / forget the bytes of the one before."""
+    from .C09 import is_await_cycle
+    from .C10 import READS_EXT
+    lb = conn_bodies(prog)
+    for name in which:
+        b = lb.get(name)
+        if b is None or (cfg == "K3" and name.startswith("async")):
+            continue
+        g = Cfg(b)
+        helpers = {n for n in READS if n not in READS_EXT}
+        reads = {bb for bb, t in b.calls() if any(n in READS for n in callee_names(t))}
+        loops = [l for l in g.loops if (l & reads) and not is_await_cycle(b, l)]
+        if not loops:
+            continue
+        L = set().union(*loops)
+        counts, bufs = set(), set()
+        for bb in reads:
+            t = b.blocks[bb]["t"]
+            for a in t["args"]:
+                la = op_local(a)
+                if la is None:
+                    continue
+                cur = la
+                for _ in range(4):          # `&mut *(&mut local)`: follow reborrows to the local that is borrowed
+                    d = [s2 for _, _, s2 in b.stmts() if s2["k"] == "assign" and s2["place"]["l"] == cur and not s2["place"]["p"]]
+                    if len(d) != 1 or d[0]["rv"]["k"] != "ref" or not d[0]["rv"]["mut"]:
+                        break
+                    pl = d[0]["rv"]["place"]
+                    if pl["p"] == ["*"]:
+                        cur = pl["l"]
+                        continue
+                    if not pl["p"]:
+                        ty = b.local_ty(pl["l"])
+                        if ty == "usize":
+                            counts.add(pl["l"])
+                        elif "BytesMut" in ty or ty.startswith("alloc::vec::Vec<u8"):
+                            bufs.add(pl["l"])
+                    break
+        bad = []
+        for bb, i, st in b.stmts():
+            if bb in L and st["k"] == "assign" and not st["place"]["p"] and st["place"]["l"] in counts and st["rv"]["k"] == "use" \
+                    and op_const(st["rv"]["op"]) is not None:
+                bad.append("the running count `%s` is set to a constant inside the read loop" % (b.local_name(st["place"]["l"]) or "_%d" % st["place"]["l"]))
+        for bb, t in b.calls():
+            if bb in L and t.get("dest") is not None and not t["dest"]["p"] and t["dest"]["l"] in bufs and \
+                    any(n.rsplit("::", 1)[-1] in ("new", "with_capacity", "zeroed", "default") for n in callee_names(t)):
+                bad.append("the receive buffer `%s` is created inside the read loop" % (b.local_name(t["dest"]["l"]) or "_%d" % t["dest"]["l"]))
+        if counts or bufs:
+            rep.check(not bad, rule, "%s/%s local receive state set up before the read loop" % (cfg, name), b.loc(b.span),
+                      "%s: %s — bytes received by earlier reads of the same call are overwritten or forgotten, so a line that arrives in two reads is "
+                      "never seen whole" % (name, "; ".join(sorted(set(bad)))))
+
+
 DISCARDING = ("bytes::bytes_mut::BytesMut::clear", "bytes::bytes_mut::BytesMut::truncate", "bytes::bytes_mut::BytesMut::split_to",
               "bytes::bytes_mut::BytesMut::advance", "bytes::buf::buf_impl::Buf::advance", "bytes::bytes_mut::BytesMut::split",
               "bytes::bytes_mut::BytesMut::split_off", "bytes::bytes_mut::BytesMut::set_len", "bytes::bytes_mut::BytesMut::resize",
@@ -777,6 +833,7 @@ def run(rep, progs, tier):
         consume_rule(rep, prog, cfg)
         persist_rule(rep, prog, cfg)
         builder_scope_rule(rep, prog, cfg)
+        count_scope_rule(rep, prog, cfg)
         resize_rule(rep, prog, cfg)
         siblings_rule(rep, prog, cfg)
         read_then_parse_rule(rep, prog, cfg)
